@@ -1238,7 +1238,12 @@ impl<E: Effect> Environment<E> {
     fn transfer_resource_ownership(&mut self, value: &Value, new_owner: ProcessId) {
         match value {
             Value::Resource(resource_id, _) => {
-                self.resource_ownership.insert(*resource_id, new_owner);
+                // Only a resource that is currently registered changes hands. A stale handle
+                // (its resource was already closed when its owner terminated) must not be
+                // re-registered, or the recipient's cleanup would close the resource a second time.
+                if let Some(owner) = self.resource_ownership.get_mut(resource_id) {
+                    *owner = new_owner;
+                }
             }
             Value::Tuple(_, fields) => {
                 for field in fields.iter() {
@@ -1967,6 +1972,22 @@ mod tests {
             types,
             resources: vec![],
         }
+    }
+
+    /// Ownership moves only for resources that are currently registered: a stale handle (its
+    /// resource already closed at its owner's cleanup) must not be registered again, or it would
+    /// be closed a second time when the recipient terminates.
+    #[test]
+    fn transfer_does_not_register_a_closed_resource_again() {
+        let mut env = Environment::<TestEffect>::new(vec![]);
+        env.resource_ownership.insert(1, 10);
+        let message = Value::tuple(
+            quiver_core::types::NIL,
+            vec![Value::Resource(1, 0), Value::Resource(2, 0)],
+        );
+        env.transfer_resource_ownership(&message, 11);
+        assert_eq!(env.resource_ownership.get(&1), Some(&11));
+        assert_eq!(env.resource_ownership.get(&2), None);
     }
 
     /// Merging a second, independently-compiled program must not corrupt the field type
